@@ -166,10 +166,13 @@ func rawHeader(proto string, id uint32) []byte {
 	return nil
 }
 
+// fixedSizes, when set, replaces the generated size sequence (exhaustive boundary sweep).
+var fixedSizes []int
+
 func runCase(t *rapid.T, cfg config) {
 	doc := caseDoc{Test: "TestC01", Config: cfg.name, RSeed: os.Getenv("VERIF_RSEED")}
 	limit := defaultLimit
-	if rapid.IntRange(0, 2).Draw(t, "smallLimit") == 0 {
+	if fixedSizes == nil && rapid.IntRange(0, 2).Draw(t, "smallLimit") == 0 {
 		limit = rapid.IntRange(16, 4096).Draw(t, "limit")
 	}
 	doc.Limit = limit
@@ -181,11 +184,18 @@ func runCase(t *rapid.T, cfg config) {
 	flip := rapid.Bool().Draw(t, "flip") // who listens
 	doc.Flip = flip
 	n := rapid.IntRange(1, 12).Draw(t, "n")
+	if fixedSizes != nil {
+		n = len(fixedSizes)
+	}
 	key := rapid.Uint64().Draw(t, "key")
 	doc.Key = key
 	sizes := make([]int, n)
 	rsizes := make([]int, n)
 	for i := range sizes {
+		if fixedSizes != nil {
+			sizes[i], rsizes[i] = fixedSizes[i], fixedSizes[n-1-i]
+			continue
+		}
 		sizes[i] = genSize(t, fmt.Sprintf("s%d", i), pat.hdrAB, limit)
 		if pat.reply {
 			rsizes[i] = genSize(t, fmt.Sprintf("r%d", i), pat.hdrBA, limit)
@@ -426,4 +436,59 @@ func TestC01(t *testing.T) {
 			rapid.Check(t, func(rt *rapid.T) { runCase(rt, cfg) })
 		})
 	}
+}
+
+// TestC01BoundarySweep (thorough tier): every configuration x every length adjacent to a pool
+// class (c-h-1..c-h+1 for h in {0,4,8}) and to the 1 MiB limit, enumerated completely.
+func TestC01BoundarySweep(t *testing.T) {
+	if !stats.Thorough() {
+		t.Skip("thorough tier only")
+	}
+	shard, _ := strconv.Atoi(os.Getenv("VERIF_SHARD"))
+	nshards, _ := strconv.Atoi(os.Getenv("VERIF_NSHARDS"))
+	if nshards <= 0 {
+		nshards = 1
+	}
+	seen := map[int]bool{}
+	var all []int
+	add := func(n int) {
+		if n >= 0 && !seen[n] {
+			seen[n] = true
+			all = append(all, n)
+		}
+	}
+	add(0)
+	add(1)
+	for _, c := range classes {
+		for _, h := range []int{0, 4, 8} {
+			for d := -1; d <= 1; d++ {
+				add(c - h + d)
+			}
+		}
+	}
+	defer func() { fixedSizes = nil }()
+	for i, cfg := range allConfigs() {
+		if i%nshards != shard {
+			continue
+		}
+		cfg := cfg
+		// limit-adjacent sizes for this pattern's header
+		sizes := append([]int{}, all...)
+		sizes = append(sizes, defaultLimit-cfg.pat.hdrAB-1, defaultLimit-cfg.pat.hdrAB)
+		if cfg.pat.hdrBA != cfg.pat.hdrAB {
+			sizes = append(sizes, defaultLimit-cfg.pat.hdrBA)
+		}
+		for from := 0; from < len(sizes); from += 20 {
+			to := from + 20
+			if to > len(sizes) {
+				to = len(sizes)
+			}
+			fixedSizes = sizes[from:to]
+			// reply legs use the reversed list: keep the limit sizes valid for both header sizes
+			t.Run(fmt.Sprintf("%s/%d", cfg.name, from), func(t *testing.T) {
+				stats.ScaledChecks(1<<30, 1, func() { rapid.Check(t, func(rt *rapid.T) { runCase(rt, cfg) }) })
+			})
+		}
+	}
+	stats.Extra("exhaustive_axis", "96 configurations x {0,1, c-h-1..c-h+1 for 8 pool classes and h in 0/4/8, L-h-1, L-h}")
 }
